@@ -214,11 +214,10 @@ def case_of(ob, r, cex):
         return {"kind": "do_rewrite", "layout": ob.params["layout"], "a": info.get("a"), "b": info.get("b"),
                 "key": "%s|applied" % ob.oid}
     if ob.oid.startswith("sched/"):
-        from vk.harness import c10
-
-        c = c10.case_of(ob, r, cex)
-        c["annotated"] = True
-        return c
+        cfg = ob.params["cfg"]
+        conc = [(cex["model"].get("a%d" % i, 0), cex["model"].get("b%d" % i, 0)) for i in range(len(cfg))]
+        return {"kind": "sched", "cfg": cfg, "annotated": True, "ranges": conc, "clause": "ignored_line_untouched",
+                "key": "%s|ignored_line_untouched" % ob.oid}
     if ob.oid == "skip_file":
         return {"kind": "skip_file", "key": "skip_file"}
     return {"kind": "pool", "skeleton": ob.params["skeleton"], "transform": ob.params["transform"],
